@@ -137,9 +137,36 @@ class ExactSolver {
                 amgcl::backend::spmv(amgcl::math::identity<scalar_type>(), S, e, amgcl::math::zero<scalar_type>(), col);
                 for (int i = 0; i < n; ++i) probed(i, j) = col[i];
             }
+            // the operator's contract is y = beta y + alpha S x for EVERY alpha, beta (iterative pressure solvers form
+            // residuals with alpha = -1, beta = 1): checked exactly against the probed S, and through backend::residual
+            if (op_mismatch.empty()) {
+                static const int AB[5][4] = {{-1, 1, 1, 1}, {2, 1, -1, 1}, {0, 1, 1, 1}, {-1, 1, 0, 1}, {1, 2, 2, 1}};   // alpha = a0/a1, beta = a2/a3
+                vector xv(n), y(n), f(n);
+                for (int i = 0; i < n; ++i) { xv[i] = value_type((i % 2 ? -1 : 1) * (i + 2)); f[i] = value_type(3 * i - 4); }
+                for (int k = 0; k < 5 && op_mismatch.empty(); ++k) {
+                    scalar_type al = scalar_type(AB[k][0]) / scalar_type(AB[k][1]), be = scalar_type(AB[k][2]) / scalar_type(AB[k][3]);
+                    for (int i = 0; i < n; ++i) y[i] = value_type(7 - 2 * i);
+                    amgcl::backend::spmv(al, S, xv, be, y);
+                    for (int i = 0; i < n && op_mismatch.empty(); ++i) {
+                        value_type w = be * value_type(7 - 2 * i);
+                        for (int j = 0; j < n; ++j) w += al * probed(i, j) * xv[j];
+                        if (!(y[i] == w)) { std::ostringstream os; os << "spmv(alpha=" << al << ", S, x, beta=" << be << ", y): component " << i << " is " << y[i] << ", beta*y + alpha*S*x = " << w; op_mismatch = os.str(); }
+                    }
+                }
+                if (op_mismatch.empty()) {
+                    amgcl::backend::residual(f, S, xv, y);
+                    for (int i = 0; i < n && op_mismatch.empty(); ++i) {
+                        value_type w = f[i];
+                        for (int j = 0; j < n; ++j) w -= probed(i, j) * xv[j];
+                        if (!(y[i] == w)) { std::ostringstream os; os << "residual(f, S, x, r): component " << i << " is " << y[i] << ", f - S*x = " << w; op_mismatch = os.str(); }
+                    }
+                }
+                ++op_checks;
+            }
             solve_with(probed, rhs, x);
             return std::make_tuple((size_t)1, scalar_type(0));
         }
+        mutable std::string op_mismatch; mutable long op_checks = 0;
         template <class Vec1, class Vec2> void apply(const Vec1 &rhs, Vec2 &&x) const { ++direct_calls; solve_with(Ad, rhs, x); }
         const matrix& system_matrix() const { return *A; }
         std::shared_ptr<matrix> system_matrix_ptr() const { return A; }
